@@ -556,7 +556,15 @@ class IrGenerator:
 
             ctx = ir.StatemachineContext.enter(inp._name)
 
-            statemachine_end = self.apply(inp._body, open_blocks=[ctx.first_block()])
+            try:
+                statemachine_end = self.apply(
+                    inp._body, open_blocks=[ctx.first_block()]
+                )
+            except BaseException:
+                # the coroutine was rejected, drop the active context so
+                # later compilations can create state machines again
+                ir.StatemachineContext._singleton = None
+                raise
 
             parent_block.append(ir.StatemachineContext.finish(statemachine_end))
 
